@@ -699,9 +699,10 @@ class Context:
             x = number_arg(args)
             if x == 0 or is_special(x):
                 return x
-            if x < 0:
-                return -((-x) ** (1 / 3))
-            return x ** (1 / 3)
+            root = math.cbrt(x)
+            nearest = round(root)
+            # exact cubes have exact roots
+            return float(nearest) if nearest**3 == x else root
 
         def log2_fn(*args):
             return log_of(math.log2, number_arg(args))
